@@ -324,11 +324,13 @@ func (o *ovsdbClient) connect(ctx context.Context, reconnect bool) error {
 		eventStopChan := make(chan struct{})
 		go o.handleClientErrors(eventStopChan)
 		o.handlerShutdown.Add(1)
-		go func(db *database) {
+		// the disconnect handler may reset db.cache (and a later Connect
+		// replace stopCh) before this goroutine gets to run
+		go func(tc *cache.TableCache, stopCh chan struct{}) {
 			defer o.handlerShutdown.Done()
-			db.cache.Run(o.stopCh)
+			tc.Run(stopCh)
 			close(eventStopChan)
-		}(db)
+		}(db.cache, o.stopCh)
 	}
 
 	o.connected = true
